@@ -28,17 +28,18 @@ theorem cons_lookup (s : App) (m : St s) (v : Val) (hv : v ∈ s.vals) : alookup
     it owns no index entry (no D1), preserves `M2`** -/
 theorem M2_setPower_existing (s s' : App) (c : CSet) (op p : Nat) (u : Bool) (m : M2 s c)
     (h : setPowerMsg genLimitFacts s .admin (some op) p u = .ok s') (hf : s.pendingFind op = none)
-    (hlive : ∀ v, s.getVal op = some v → powerOf v.tokens > 0)
+    (hlive : ∀ v, s.getVal op = some v → powerOf v.tokens > 0 ∧ v.jailed = false)
     (hd3 : op ∉ s.updated) (hd1 : (p / PR, op) ∉ s.index) : M2 s' c := by
   have hadm : s.admitIfPending (some op) = s := by simp [admitIfPending, hf]
   obtain ⟨v, hv⟩ := setPower_target s s s' op p u hadm h
   have hvm := mem_of_getVal s op v hv
   have hvop := getVal_op _ _ _ hv
   have hav : Active v := by
-    rcases m.st.cls v hvm with ha | hg | hu
+    rcases m.st.cls v hvm with ha | hg | hu | hj
     · exact ha
-    · have := hlive v hv; rw [hg.2.2.1] at this; simp [powerOf] at this
-    · have := hlive v hv; rw [hu.2.2.1] at this; simp [powerOf] at this
+    · have := (hlive v hv).1; rw [hg.2.2.1] at this; simp [powerOf] at this
+    · have := (hlive v hv).1; rw [hu.2.2.1] at this; simp [powerOf] at this
+    · have := (hlive v hv).2; rw [hj.1] at this; cases this
   obtain ⟨hlo, hhi, hne, D, LT, AB, B, S, hs'⟩ := setPower_shape s s s' op p u v hadm hv hav.2.1 h
   have hvals : s'.vals = insertVal (reweigh v p) s.vals := by rw [hs']
   have hlastE : s'.last = ainsert op ((p / PR : Nat) : Int) (ainsert op ((p / PR : Nat) : Int) s.last) := by rw [hs']
@@ -73,7 +74,8 @@ theorem M2_setPower_existing (s s' : App) (c : CSet) (op p : Nat) (u : Bool) (m 
       · intro e; rw [e, hv] at f1; cases f1
       · intro e; exact f2 v hvm e.symm
     · intro o ho; rw [hlastE, alookup_ainsert_ne _ _ _ _ ho, alookup_ainsert_ne _ _ _ _ ho]
-    · rw [hlastE, alookup_ainsert_self, lastOf_active _ haw, hcurw]
+    · intro _; rw [hlastE, alookup_ainsert_self, lastOf_active _ haw, hcurw]
+    · intro hj; exact absurd hj (by rw [haw.2.1]; simp)
     · rw [hlastE]; exact ksorted_ainsert _ _ _ (ksorted_ainsert _ _ _ m.st.lastSorted)
     · intro e he
       rw [hindex] at he
@@ -100,7 +102,8 @@ theorem M2_setPower_existing (s s' : App) (c : CSet) (op p : Nat) (u : Bool) (m 
             have : powerOf (reweigh v p).tokens = p / PR := rfl
             rw [this]; exact mem_idxInsert_self _ _)
         g := (fun hg => absurd hg (active_not_gone _ haw))
-        u := (fun hu => absurd hu (active_not_unb _ haw)) }
+        u := (fun hu => absurd hu (active_not_unb _ haw))
+        j := (fun hj => absurd hj (by rw [haw.2.1]; simp)) }
     · rw [hparamsE]; exact m.st.unbond
     · intro y hy _; simp only [getInfo, hinfosE]; exact m.st.infos y hy
     · simp only [getInfo, hinfosE]; exact m.st.infos v hvm
@@ -117,11 +120,12 @@ theorem M2_setPower_existing (s s' : App) (c : CSet) (op p : Nat) (u : Bool) (m 
       intro eo
       obtain ⟨w, hw, hwu, _⟩ := m.st.qRecs e he
       rw [eo, hv] at hw; injection hw with hw
-      rw [← hw] at hwu
-      exact active_not_unb v hav hwu
+      rw [← hw, hav.1] at hwu
+      cases hwu
   · apply Cm_put s s' c op (reweigh v p) m.st m.cm hwop hvals hupdNe
     · intro _ hnu; exact absurd hopin hnu
     · intro hg; exact absurd hg (active_not_gone _ haw)
+    · intro hj; exact absurd hj (by rw [haw.2.1]; simp)
     · intro v2 hv2 _
       rw [hv] at hv2; injection hv2 with hv2
       rw [← hv2]; exact ⟨rfl, rfl⟩
@@ -192,7 +196,8 @@ theorem M2_setPower_admit (s s' : App) (c : CSet) (op P : Nat) (u : Bool) (m : M
       have : p = q := pending_key_inj s.pending m.st.pend.keys p hpm q hqm ek.symm
       exact hqop (by rw [← this]; exact hpop)
     · intro o ho; rw [hlastE, alookup_ainsert_ne _ _ _ _ ho, alookup_ainsert_ne _ _ _ _ ho]
-    · rw [hlastE, alookup_ainsert_self, lastOf_active _ haw, hcurw]
+    · intro _; rw [hlastE, alookup_ainsert_self, lastOf_active _ haw, hcurw]
+    · intro hj; exact absurd hj (by rw [haw.2.1]; simp)
     · rw [hlastE]; exact ksorted_ainsert _ _ _ (ksorted_ainsert _ _ _ m.st.lastSorted)
     · intro e he
       rw [hindex, mem_idxInsert _ _ _ h1, mem_idxInsert _ _ _ h0] at he
@@ -219,7 +224,8 @@ theorem M2_setPower_admit (s s' : App) (c : CSet) (op P : Nat) (u : Bool) (m : M
             have : powerOf (reweigh (newborn p) P).tokens = P / PR := rfl
             rw [this]; exact mem_idxInsert_self _ _)
         g := (fun hg => absurd hg (active_not_gone _ haw))
-        u := (fun hu => absurd hu (active_not_unb _ haw)) }
+        u := (fun hu => absurd hu (active_not_unb _ haw))
+        j := (fun hj => absurd hj (by rw [haw.2.1]; simp)) }
     · rw [hparamsE]; exact m.st.unbond
     · intro y hy _
       simp only [getInfo, hinfosE]
@@ -242,6 +248,7 @@ theorem M2_setPower_admit (s s' : App) (c : CSet) (op P : Nat) (u : Bool) (m : M
   · apply Cm_put s s' c op (reweigh (newborn p) P) m.st m.cm hwop hvals hupdNe
     · intro _ hnu; exact absurd hopin hnu
     · intro hg; exact absurd hg (active_not_gone _ haw)
+    · intro hj; exact absurd hj (by rw [haw.2.1]; simp)
     · intro v2 hv2 _
       rw [← hpop, fr1] at hv2; cases hv2
 
@@ -258,11 +265,11 @@ theorem M2_pending (s s' : App) (c : CSet) (m : M2 s c) (P : List Pending) (B S 
     st := {
       sorted := t.sorted, keys := t.keys, cls := t.cls, hasActive := t.hasActive
       pend := ⟨hp.1, hp.2.1, hp.2.2⟩
-      last := t.last, lastOnly := t.lastOnly, lastSorted := t.lastSorted, idxEx := t.idxEx, idxNodup := t.idxNodup
-      idx := fun v hv => { a1 := (t.idx v hv).a1, a2 := (t.idx v hv).a2, g := (t.idx v hv).g, u := (t.idx v hv).u }
+      last := t.last, lastJ := t.lastJ, lastOnly := t.lastOnly, lastSorted := t.lastSorted, idxEx := t.idxEx, idxNodup := t.idxNodup
+      idx := fun v hv => { a1 := (t.idx v hv).a1, a2 := (t.idx v hv).a2, g := (t.idx v hv).g, u := (t.idx v hv).u, j := (t.idx v hv).j }
       unbond := t.unbond, infos := t.infos, cons := t.cons, updSorted := t.updSorted, updEx := t.updEx
       qSorted := t.qSorted, qNodup := t.qNodup, qRecs := t.qRecs }
-    cm := { cur := m.cm.cur, gone := m.cm.gone, known := m.cm.known, cSorted := m.cm.cSorted, cNonneg := m.cm.cNonneg } }
+    cm := { cur := m.cm.cur, gone := m.cm.gone, jb := m.cm.jb, known := m.cm.known, cSorted := m.cm.cSorted, cNonneg := m.cm.cNonneg } }
 
 /-- **a successful CreateValidator preserves `M2`** -/
 theorem M2_create (s s' : App) (c : CSet) (sg : Signer) (a : CreateArgs) (m : M2 s c) (h : s.createMsg sg a = .ok s') : M2 s' c := by
@@ -356,11 +363,11 @@ theorem M2_params (s s' : App) (c : CSet) (sg : Signer) (pa : ParamArgs) (m : M2
         st := {
           sorted := t.sorted, keys := t.keys, cls := t.cls, hasActive := t.hasActive
           pend := ⟨t.pend.ops, t.pend.keys, t.pend.fresh⟩
-          last := t.last, lastOnly := t.lastOnly, lastSorted := t.lastSorted, idxEx := t.idxEx, idxNodup := t.idxNodup
-          idx := fun v hv => { a1 := (t.idx v hv).a1, a2 := (t.idx v hv).a2, g := (t.idx v hv).g, u := (t.idx v hv).u }
+          last := t.last, lastJ := t.lastJ, lastOnly := t.lastOnly, lastSorted := t.lastSorted, idxEx := t.idxEx, idxNodup := t.idxNodup
+          idx := fun v hv => { a1 := (t.idx v hv).a1, a2 := (t.idx v hv).a2, g := (t.idx v hv).g, u := (t.idx v hv).u, j := (t.idx v hv).j }
           unbond := hu, infos := t.infos, cons := t.cons, updSorted := t.updSorted, updEx := t.updEx
           qSorted := t.qSorted, qNodup := t.qNodup, qRecs := t.qRecs }
-        cm := { cur := m.cm.cur, gone := m.cm.gone, known := m.cm.known, cSorted := m.cm.cSorted, cNonneg := m.cm.cNonneg } }
+        cm := { cur := m.cm.cur, gone := m.cm.gone, jb := m.cm.jb, known := m.cm.known, cSorted := m.cm.cSorted, cNonneg := m.cm.cNonneg } }
 
 end App
 end PoaVerif
